@@ -126,25 +126,27 @@ pub fn delim_check<T: Model + BinaryDeserializer>(v: &T) {
     std::mem::forget(ctx);
 }
 
-/// C08: every strict prefix of `ref(v)` is an error (cut point symbolic).
+/// C08: every strict prefix of `ref(v)` is an error. The cut points are enumerated with concrete
+/// lengths (a symbolic slice length defeats CBMC's constant folding of the structure bytes); all
+/// payload bits stay symbolic, so every (value, cut point) pair of the shape is covered.
 pub fn trunc_check<T: Model + BinaryDeserializer>(v: &T) {
     let mut r = Buf::new();
     v.enc(&mut r);
-    if r.n == 0 {
-        return;
-    }
-    let k = sym::index_below(r.n);
-    match desert_core::deserialize::<T>(&r.b[..k]) {
-        Ok(w) => {
-            std::mem::forget(w);
-            assert!(false, "a strict prefix of a valid encoding was decoded");
+    let n = r.n;
+    unrolled48!(|k: usize| {
+        if k < n {
+            match desert_core::deserialize::<T>(&r.b[..k]) {
+                Ok(w) => {
+                    std::mem::forget(w);
+                    assert!(false, "a strict prefix of a valid encoding was decoded");
+                }
+                Err(e) => {
+                    crate::cover!(k + 1 == n);
+                    std::mem::forget(e);
+                }
+            }
         }
-        Err(e) => {
-            crate::cover!(k == 0);
-            crate::cover!(k + 1 == r.n);
-            std::mem::forget(e);
-        }
-    }
+    });
 }
 
 /// C05/C06 on a raw buffer: never a panic; `Ok(v)` implies the reference decoder yields `v`;
@@ -186,11 +188,11 @@ impl BinaryOutput for Recorder {
         self.n += 1;
     }
     fn write_bytes(&mut self, bytes: &[u8]) {
-        let mut i = 0;
-        while i < bytes.len() {
-            self.write_u8(bytes[i]);
-            i += 1;
+        let end = self.n + bytes.len();
+        if end <= CAP {
+            self.b[self.n..end].copy_from_slice(bytes);
         }
+        self.n = end;
     }
 }
 
